@@ -10,7 +10,7 @@
    functions (should_close, _release, _get, connection_key ...) come from Generated/ClientConnGen.v. *)
 From AV Require Import Lib.Base Generated.ClientConnGen Model.ClientConn
   Proofs.ClientConnBase Proofs.ClientConnStruct Proofs.ClientConnTagsDef Proofs.ClientConnTagsB
-  Proofs.ClientConnReuse Proofs.ClientConnWitness.
+  Proofs.ClientConnReuse Proofs.ClientConnHeads Proofs.ClientConnWitness.
 Open Scope N_scope.
 
 (* ---- no mixing ------------------------------------------------------------------------------ *)
@@ -37,17 +37,23 @@ Example C06_same_read_surplus_fixed : exists s,
 Proof. exact w_same_read_surplus. Qed.
 Print Assumptions C06_same_read_surplus_fixed.
 
-(* For ALL traces: if no token was ever handled on a connection that no exchange was holding
-   (s_idle_parsed = false: the peer sends nothing while the connection idles in the pool and nothing after the
-   end of a response in the read that completes it), then everything every caller was given - heads and body
-   bytes - arrived while that caller's own exchange held the connection.  Surplus that is parsed *before* the
-   release, early bytes on a fresh connection, truncated bodies, peer close at any point, garbage,
-   cancellations and upgrades are all inside the quantifier.
-   PARTIAL: the hypothesis is no longer needed for the repaired code (the examples above and the trace
-   validation show the stale connections being refused), but the invariant behind this proof (pooled =>
-   nothing queued) is exactly what the hypothesis buys; the unconditional statement needs the weaker invariant
-   "pooled and still passing is_reusable() => nothing queued" threaded through the token steps of an idle
-   connection, which is not done.  What IS proved unconditionally about the repair is C06_reuse_only_clean. *)
+(* FULL, for ALL traces (new with d13503d): every response HEAD a caller is given arrived while that caller's own
+   exchange held the connection - whatever the peer sent while the connection was pooled, after the end of a
+   response in the same read, before the first request, or at any other time.  (This is the statement the two
+   former witnesses refuted: what they delivered to the wrong request was a head.) *)
+Theorem C06_no_stale_head : forall cf tr s,
+  run cf init tr = Some s ->
+  forall d, In d (s_log s) -> d_head d = true -> d_tag d = TFlight (d_e d).
+Proof. exact no_stale_head. Qed.
+Print Assumptions C06_no_stale_head.
+
+(* For heads AND body items, for ALL traces, under a hypothesis: if no token was ever handled on a connection
+   that no exchange was holding (s_idle_parsed = false), then everything every caller was given arrived while
+   that caller's own exchange held the connection.
+   PARTIAL for the body items only: the hypothesis is not needed any more for heads (C06_no_stale_head) and the
+   trace validation shows the repaired code refusing every stale connection, but the unconditional statement
+   for body items needs one more invariant (a payload that is still being fed belongs to the exchange holding
+   the connection, also across tokens handled on pooled / closed connections), which is not proved. *)
 Theorem C06_no_mix_partial : forall cf tr s,
   run cf init tr = Some s -> s_idle_parsed s = false ->
   forall d, In d (s_log s) -> d_tag d = TFlight (d_e d).
